@@ -592,17 +592,19 @@ theorem pairwiseB_sound {α : Type} {r : α → α → Bool} : ∀ {l : List α}
 
 /-- `netsok 1` in the driver's reply -/
 theorem netsOkB_sound {H : Hier} (h : netsOkB H = true) : NetsOk H := by
-  simp only [netsOkB, Bool.and_eq_true, List.all_eq_true, List.any_eq_true, beq_iff_eq, decide_eq_true_eq] at h
+  simp only [netsOkB, Bool.and_eq_true, List.all_eq_true, List.any_eq_true, beq_iff_eq, decide_eq_true_eq, List.mem_map,
+    forall_exists_index, and_imp, forall_apply_eq_imp_iff₂] at h
   obtain ⟨⟨h1, h2⟩, h3⟩ := h
   refine ⟨?_, ?_, ?_⟩
   · intro n hn m
     rw [← mem_netOf, ← h1 n hn, mem_sortDedup]
-  · apply (pairwiseB_sound h2).imp
+  · have := List.pairwise_map.mp (pairwiseB_sound h2)
+    apply this.imp
     intro a b hab hr
     simp only [Bool.not_eq_true', decide_eq_false_iff_not] at hab
     exact hab ((mem_netOf _ _ _).mpr hr)
   · intro e he
-    obtain ⟨n, hn, hm⟩ := h3 e he
+    obtain ⟨c, ⟨n, hn, rfl⟩, hm⟩ := h3 e he
     exact ⟨n, hn, (mem_netOf _ _ _).mp hm⟩
 
 end PV.SConn
